@@ -1543,6 +1543,18 @@ def _hint_checks(ctx, hints, frclim, ode):
             ctx.failures.append(f)
 
 
+def _rb_damped(B, K):
+    """does the damping matrix act on the rigid-body modes (null space of a symmetric K)?"""
+    B, K = np.asarray(B), np.asarray(K)
+    if np.iscomplexobj(K) or not np.allclose(K, K.T, rtol=1e-9, atol=1e-9 * np.abs(K).max()):
+        return False
+    lam, V = np.linalg.eigh((K + K.T) / 2)
+    null = V[:, np.abs(lam) < 1e-8 * max(np.abs(lam).max(), 1e-300)]
+    if null.shape[1] == 0:
+        return False
+    return bool(np.abs(B @ null).max() > 1e-6 * max(np.abs(B).max(), 1e-300))
+
+
 def _replay_input_raw(inp, frclim, ode):
     kind = inp.get("kind")
     with warnings.catch_warnings():
@@ -1578,8 +1590,11 @@ def _replay_input_raw(inp, frclim, ode):
             am = _calc_am(frclim, ode, c)
             fails = []
             r = c["T"].shape[0]
-            _chk(fails, "calcAM-drm-%s-vs-definition-%s" % (c["route"], "multi-dof" if r > 1 else "single-dof"),
-                 "calcAM differs from inv(T Z^-1 T' (-W^2)) computed with numpy", inp, am, ref, cond, 1,
+            fam = "calcAM-drm-%s-vs-definition-%s" % (c["route"], "multi-dof" if r > 1 else "single-dof")
+            if _rb_damped(c["B"], c["K"]):
+                # the input characteristic of F51 / F52: damping that acts on the rigid-body modes (mass-proportional, Rayleigh)
+                fam = "calcAM-drm-%s-damped-rigid-body-modes-%s" % (c["route"], "multi-dof" if r > 1 else "single-dof")
+            _chk(fails, fam, "calcAM differs from inv(T Z^-1 T' (-W^2)) computed with numpy", inp, am, ref, cond, 1,
                  tol=TOL * _eig_grade(inp))
             return _fdict(fails[0]) if fails else None
         if kind == "calcAM-pv":
